@@ -285,6 +285,7 @@ pub fn bfs<U: Universe>(bounds: &Bounds, classes: u32, lim: &Limits, skip: &Hash
                             local.push(Out { hist: h2, hs: hs_, key: o.key, model: o.model, mism: o.mism, broken: o.replay_broken });
                         }
                     }
+                    vrt::crash::idle();
                     local
                 }));
             }
